@@ -22,6 +22,7 @@ class Scan:
         self.variants = 0
         self.outcomes = []     # (variant label, kind, value, line, interp)
         self.incomplete = None
+        self.bound = {}
 
     def add(self, label, R: Result):
         self.paths += R.paths
@@ -32,6 +33,8 @@ class Scan:
             self.flags.setdefault((line, cat), set()).add(msg)
         for o in R.outcomes:
             self.outcomes.append((label,) + tuple(o))
+        for k, v in R.bound.items():
+            self.bound.setdefault(k, set()).update(v)
         self.variants += 1
 
 
